@@ -1,7 +1,29 @@
-import DFV.Lemmas.C05
+import DFV.Lemmas.C05Examples
+/-!
+# C05 — grad, div, curl and Laplacian are the textbook combinations of the derivatives
+
+Property theorems about the model `DFV/Model/C05.lean` of `Field.grad / div / curl /
+laplace` (composed from C04's `Field.diff` exactly as `field.py` does).  Mesh dimension,
+cell counts, cell sizes, dims names, component labels, the component-to-axis mapping,
+periodic directions, data and (where it matters) validity masks are universally quantified.
+Helper lemmas live in `DFV/Lemmas/C05.lean`.
+-/
+set_option linter.unusedSimpArgs false
 namespace DFV.C05
 open DFV DFV.C04
 
+/-! ## 1. The four operators are the textbook combinations of the directional derivatives
+
+`D f ax order c i` is the value at cell `i` of the `order`-th derivative along axis `ax` of
+stored component `c` (C04's `Field.diff`).  The theorems relate the code-shaped compositions
+(`getattr`, `_r_dim_mapping`, `diff`, `-`, `<<`, `sum` with its reflected `0 + f`, every
+intermediate field built through the constructor) to index-level formulas, for every mesh
+dimension, every dims naming, every labels, every mapping. -/
+
+/-- **Gradient.**  If `grad` accepts the field then the field is scalar, the result has one
+component per mesh axis — in the order of `region.dims`, whatever the axes are called — and
+component `a` at every cell is the first derivative along axis `a`; mesh and validity are
+the operand's. -/
 theorem grad_eq (f g : Fld) (hd : DimsOk f) (h : grad f = .ok g) :
     f.nvdim = 1 ∧ g.nvdim = f.mesh.ndim ∧ g.mesh = f.mesh ∧ (∀ i, g.valid.get i = f.valid.get i) ∧
     ∀ i a, a < f.mesh.ndim → (g.data.get i).getD a 0 = D f a 1 0 i := by
@@ -257,6 +279,17 @@ theorem laplace_eq_vector (f g : Fld) (vs : List String) (hdims : DimsOk f) (hn 
         simp only [Option.map_some, Option.getD_some]
         exact (hk c hc').2.2.2 i
 
+/-- **The reversed mapping inverts the mapping.**  For a one-to-one `vdim_mapping`, the
+component that `_r_dim_mapping` pairs with axis `d` (the `ρ` of `curl_eq`) is exactly the
+component whose label `vdim_mapping` sends to `d` (the `σ` of `div_eq`). -/
+theorem rdim_inverts_mapping (f : Fld) (l d : String)
+    (hinj : ∀ p ∈ f.vmap, ∀ q ∈ f.vmap, p.2 = q.2 → p = q)
+    (h : Fld.lookup f.vmap l = some d) : rDimLast f d = some l :=
+  rDimLast_of_lookup f l d hinj h
+
+
+/-! ## 2. Refusals, and their converses -/
+
 /-- **Gradient is refused** for every field that is not scalar. -/
 theorem grad_refusal (f : Fld) (h : f.nvdim ≠ 1) : grad f = .error .value := by
   unfold grad; simp [h]
@@ -355,321 +388,6 @@ theorem curl_accepts_only (f g : Fld) (h : curl f = .ok g) :
                 · exact key _ hy
                 · exact key _ hz
           · cases h
-
-/-- **Relabelling keeps the pairing.**  Assigning new component labels to a field that has a
-mapping transports the mapping position by position: the new label of component `k` is
-mapped to what the old label of component `k` was mapped to.  Nothing else changes. -/
-theorem setVdims_keeps_map (f g : Fld) (old new : List String) (hold : f.vdims = some old)
-    (hlen : old.length = f.nvdim) (hmap : 0 < f.vmap.length) (hne : new ≠ [])
-    (h : setVdims f (some new) = .ok g) :
-    g.vdims = some new ∧ new.length = f.nvdim ∧ g.mesh = f.mesh ∧ g.data = f.data ∧ g.valid = f.valid ∧
-    g.nvdim = f.nvdim ∧
-    ∀ k, k < f.nvdim → Fld.lookup g.vmap (new.getD k "") = Fld.lookup f.vmap (old.getD k "") := by
-  unfold setVdims at h
-  split at h
-  · cases h
-  · rename_i r hr
-    obtain ⟨r1, r2, r3⟩ := vdimsSet_some hne hr
-    subst r1
-    rw [hold] at h
-    simp only [] at h
-    rw [if_pos hmap] at h
-    split at h
-    · cases h
-    · rename_i mp hmp
-      unfold setVmap at h
-      split at h
-      · cases h
-      · rename_i mp' hmp'
-        injection h with h; subst h
-        refine ⟨rfl, r2, rfl, rfl, rfl, rfl, ?_⟩
-        have hmm : mp' = mp := by
-          unfold vmapSet at hmp'
-          simp only [] at hmp'
-          split at hmp'
-          · rename_i hc; exact absurd hc.2.2 (by simp)
-          · split at hmp'
-            · split at hmp'
-              · injection hmp' with e; exact e.symm
-              · cases hmp'
-            · injection hmp' with e; exact e.symm
-        rw [hmm]
-        intro k hk
-        exact transportMap_lookup f.vmap new old mp r3 (by omega) hmp k (by omega)
-
-/-- LINE-LEVEL EXACTNESS: if along the line through `i` the values are a quadratic in the
-offset from cell `i` (`p0 + p1·s + p2/2·s²`, `s` = distance along the axis), the first and
-second derivative at `i` are `p1` and `p2` — at the first cell, in the interior, at the last
-cell of a fully valid open line of at least 3 cells -/
-theorem D_exact_line (f : Fld) (ax c : Nat) (i : List Nat) (p0 p1 p2 : Rat)
-    (hper : periodic f ax = false) (hn : 3 ≤ f.mesh.nAt ax) (hh : f.mesh.cellAt ax ≠ 0)
-    (hi : i.getD ax 0 < f.mesh.nAt ax)
-    (hv : ∀ j, j < f.mesh.nAt ax → f.valid.line ax i j = true)
-    (hT : ∀ j, j < f.mesh.nAt ax → (f.data.line ax i j).getD c 0
-        = p0 + p1 * (((j : Rat) - (i.getD ax 0 : Nat)) * f.mesh.cellAt ax)
-          + p2 / 2 * (((j : Rat) - (i.getD ax 0 : Nat)) * f.mesh.cellAt ax) ^ 2) :
-    D f ax 1 c i = p1 ∧ D f ax 2 c i = p2 := by
-  have key : ∀ o, D f ax o c i = dAt o (f.mesh.cellAt ax) (f.mesh.nAt ax)
-      (fun k => p0 + p1 * (-((i.getD ax 0 : Nat) : Rat) * f.mesh.cellAt ax + (k : Rat) * f.mesh.cellAt ax)
-        + p2 / 2 * (-((i.getD ax 0 : Nat) : Rat) * f.mesh.cellAt ax + (k : Rat) * f.mesh.cellAt ax) ^ 2) (i.getD ax 0) := by
-    intro o
-    rw [D_open_all_valid f ax o c i hper hv hi]
-    apply dAt_congr _ _ _ _ _ _ _ hi
-    intro k hk
-    rw [hT k hk]; ring
-  constructor
-  · rw [key 1]
-    unfold dAt
-    simp only [if_true]
-    rw [d1_exact p0 p1 (p2 / 2) _ _ hh _ hn _ hi]
-    ring
-  · rw [key 2]
-    unfold dAt
-    simp only [show ¬ ((2 : Nat) = 1) by omega, if_false]
-    by_cases h4 : 4 ≤ f.mesh.nAt ax
-    · have := d2_exact p0 p1 (p2 / 2) 0 (-((i.getD ax 0 : Nat) : Rat) * f.mesh.cellAt ax) _ hh _ h4 _ hi
-      simp only [zero_mul, add_zero, mul_zero] at this
-      rw [this]; ring
-    · have h3 : f.mesh.nAt ax = 3 := by omega
-      rw [h3, d2_exact_three p0 p1 (p2 / 2) _ _ hh]
-      ring
-
-/-- FIELD-LEVEL EXACTNESS of `diff`: a component that samples a function which is quadratic
-along axis `ax` is differentiated exactly (first and second derivative) at every cell of a
-fully valid open mesh with at least three cells along `ax`. -/
-theorem D_exact (f : Fld) (ax c : Nat) (i : List Nat) (P P1 P2 : (Nat → Rat) → Rat)
-    (hs : SampledFrom f c P) (hq : QuadAlong P ax P1 P2) (hval : FullyValid f)
-    (hper : periodic f ax = false) (hn : 3 ≤ f.mesh.nAt ax) (hh : f.mesh.cellAt ax ≠ 0)
-    (hax : ax < i.length) (hi : i.getD ax 0 < f.mesh.nAt ax) :
-    D f ax 1 c i = P1 (coords f i) ∧ D f ax 2 c i = P2 (coords f i) := by
-  apply D_exact_line f ax c i (P (coords f i)) (P1 (coords f i)) (P2 (coords f i)) hper hn hh hi
-  · intro j _; exact hval _
-  · intro j _
-    unfold NDA.line
-    rw [hs (setAt i ax j), coords_setAt f i ax j hax, hq]
-
-/-- every polynomial of total degree ≤ 2 is quadratic along every axis, with the textbook
-partial derivatives -/
-theorem quadP_quadAlong (n : Nat) (c0 : Rat) (b : Nat → Rat) (q : Nat → Nat → Rat) (ax : Nat) (hax : ax < n) :
-    QuadAlong (quadP n c0 b q) ax (quadP1 n b q ax) (fun _ => 2 * q ax ax) := by
-  intro x s
-  rw [upd_add]
-  unfold quadP quadP1
-  -- linear part
-  have l1 : sumTo n (fun a => b a * (x a + s * (if a = ax then (1 : Rat) else 0)))
-      = sumTo n (fun a => b a * x a) + s * b ax := by
-    rw [sumTo_congr n _ (fun a => b a * x a + s * 0 + s * ((if a = ax then (1 : Rat) else 0) * b a) + 0 * 0)
-      (fun a _ => by ring)]
-    rw [sumTo_lin4, sumTo_delta n ax hax, sumTo_zero]
-    ring
-  -- inner sums of the quadratic part
-  have inner : ∀ a, sumTo n (fun a' => q a a' * (x a + s * (if a = ax then (1 : Rat) else 0))
-        * (x a' + s * (if a' = ax then (1 : Rat) else 0)))
-      = sumTo n (fun a' => q a a' * x a * x a')
-        + s * ((if a = ax then (1 : Rat) else 0) * sumTo n (fun a' => q a a' * x a'))
-        + s * (x a * q a ax) + s ^ 2 * ((if a = ax then (1 : Rat) else 0) * q a ax) := by
-    intro a
-    rw [sumTo_congr n _ (fun a' => q a a' * x a * x a'
-        + s * ((if a = ax then (1 : Rat) else 0) * (q a a' * x a'))
-        + s * ((if a' = ax then (1 : Rat) else 0) * (x a * q a a'))
-        + s ^ 2 * ((if a' = ax then (1 : Rat) else 0) * ((if a = ax then (1 : Rat) else 0) * q a a')))
-      (fun a' _ => by ring)]
-    rw [sumTo_lin4, sumTo_delta n ax hax, sumTo_delta n ax hax]
-    have : sumTo n (fun a' => (if a = ax then (1 : Rat) else 0) * (q a a' * x a'))
-        = (if a = ax then (1 : Rat) else 0) * sumTo n (fun a' => q a a' * x a') :=
-      sumTo_mul_left n _ _
-    rw [this]
-  have l2 : sumTo n (fun a => sumTo n fun a' => q a a' * (x a + s * (if a = ax then (1 : Rat) else 0))
-        * (x a' + s * (if a' = ax then (1 : Rat) else 0)))
-      = sumTo n (fun a => sumTo n fun a' => q a a' * x a * x a')
-        + s * sumTo n (fun a' => q ax a' * x a') + s * sumTo n (fun a => q a ax * x a) + s ^ 2 * q ax ax := by
-    rw [sumTo_congr n _ _ (fun a _ => inner a)]
-    rw [sumTo_congr n _ (fun a => sumTo n (fun a' => q a a' * x a * x a')
-        + s * ((if a = ax then (1 : Rat) else 0) * sumTo n (fun a' => q a a' * x a'))
-        + s * (q a ax * x a) + s ^ 2 * ((if a = ax then (1 : Rat) else 0) * q a ax))
-      (fun a _ => by ring)]
-    rw [sumTo_lin4, sumTo_delta n ax hax, sumTo_delta n ax hax]
-  rw [l1, l2]
-  have l3 : sumTo n (fun a => (q ax a + q a ax) * x a)
-      = sumTo n (fun a' => q ax a' * x a') + sumTo n (fun a => q a ax * x a) := by
-    rw [← sumTo_add]
-    exact sumTo_congr n _ _ (fun a _ => by ring)
-  rw [l3]
-  ring
-
-/-- **curl(grad f) = 0**, exactly, at every cell of every fully valid 3-d mesh — any cell
-counts (also 1 or 2 per axis), any anisotropic cell sizes, open and periodic directions in
-any combination: the two mixed second differences that make up each component are the
-same number because stencils along different axes commute. -/
-theorem curl_grad_zero (f g r : Fld) (hdims : DimsOk f) (hp : Plain f) (hnd : f.mesh.ndim = 3)
-    (hval : FullyValid f) (hg : grad f = .ok g) (hr : curl g = .ok r) :
-    ∀ i, InMesh f i → ∀ k, k < 3 → (r.data.get i).getD k 0 = 0 := by
-  obtain ⟨x, y, z, hxyz, hxy, hxz, hyz⟩ := dims3 f hdims hnd
-  obtain ⟨_, g2, g3, g4, g5⟩ := grad_eq f g hdims hg
-  have hl2 : 2 ≤ f.mesh.region.dims.length := by rw [hxyz]; simp
-  obtain ⟨m1, m2⟩ := grad_meta f g hp hl2 hg
-  rw [g2, hnd] at m1 m2
-  rw [posVdims3] at m1
-  rw [posVmap3 g.mesh x y z (by rw [g3]; exact hxyz) (by rw [g3]; exact hnd)] at m2
-  have hgd : DimsOk g := by unfold DimsOk; rw [g3]; exact hdims
-  obtain ⟨r1, r2, r3⟩ := rDimLast_pos g x y z hxy hxz hyz m2
-  have hρ : ∀ d, d < 3 → (fun d => d) d < 3 ∧
-      rDimLast g (g.mesh.region.dims.getD d "") = some (["x", "y", "z"].getD ((fun d => d) d) "") := by
-    intro d hd
-    rw [g3, hxyz]
-    refine ⟨hd, ?_⟩
-    match d, hd with
-    | 0, _ => exact r1
-    | 1, _ => exact r2
-    | 2, _ => exact r3
-  obtain ⟨_, _, _, _, _, c6⟩ := curl_eq g r ["x", "y", "z"] (fun d => d) hgd m1 (by rw [g2, hnd]; rfl) (by decide) hρ hr
-  have hgv : FullyValid g := fun i => by rw [g4 i]; exact hval i
-  intro i hi k hk
-  obtain ⟨_, hin⟩ := hi
-  have i0 := hin 0 (by omega)
-  have i1 := hin 1 (by omega)
-  have i2 := hin 2 (by omega)
-  have dd : ∀ a b, a < 3 → b < 3 → a ≠ b → i.getD a 0 < f.mesh.nAt a → i.getD b 0 < f.mesh.nAt b →
-      D g a 1 b i = DD f a b 0 i := by
-    intro a b _ hb hab ha' hb'
-    exact D_of_D f g a b 0 b i hval hgv g3 (fun i' => g5 i' b (by omega)) hab ha' hb'
-  obtain ⟨e0, e1, e2⟩ := c6 i
-  match k, hk with
-  | 0, _ => rw [e0, dd 1 2 (by omega) (by omega) (by omega) i1 i2, dd 2 1 (by omega) (by omega) (by omega) i2 i1,
-              DD_comm f 1 2 0 i (by omega)]; ring
-  | 1, _ => rw [e1, dd 2 0 (by omega) (by omega) (by omega) i2 i0, dd 0 2 (by omega) (by omega) (by omega) i0 i2,
-              DD_comm f 2 0 0 i (by omega)]; ring
-  | 2, _ => rw [e2, dd 0 1 (by omega) (by omega) (by omega) i0 i1, dd 1 0 (by omega) (by omega) (by omega) i1 i0,
-              DD_comm f 0 1 0 i (by omega)]; ring
-
-/-- **div(curl v) = 0**, exactly, at every cell of every fully valid 3-d mesh, for every
-one-to-one pairing of the three stored components with the three axes (`ρ`), open and
-periodic directions alike. -/
-theorem div_curl_zero (v c d : Fld) (vs : List String) (ρ : Nat → Nat) (hdims : DimsOk v)
-    (hv : v.vdims = some vs) (hvl : vs.length = v.nvdim) (hvd : hasDup vs = false)
-    (hρ : ∀ a, a < 3 → ρ a < 3 ∧ rDimLast v (v.mesh.region.dims.getD a "") = some (vs.getD (ρ a) ""))
-    (hval : FullyValid v) (hc : curl v = .ok c) (hd : div c = .ok d) :
-    ∀ i, InMesh v i → (d.data.get i).getD 0 0 = 0 := by
-  obtain ⟨_, hnd, c3, c4, c5, c6⟩ := curl_eq v c vs ρ hdims hv hvl hvd hρ hc
-  obtain ⟨x, y, z, hxyz, hxy, hxz, hyz⟩ := dims3 v hdims hnd
-  obtain ⟨m1, m2⟩ := curl_meta v c hc
-  rw [posVdims3] at m1
-  rw [posVmap3 v.mesh x y z hxyz (by unfold Mesh.ndim at hnd; exact hnd)] at m2
-  have hcd : DimsOk c := by unfold DimsOk; rw [c4]; exact hdims
-  have hσ : ∀ k, k < c.nvdim → (fun k => k) k < c.mesh.ndim ∧
-      Fld.lookup c.vmap (["x", "y", "z"].getD k "") = some (c.mesh.region.dims.getD ((fun k => k) k) "") := by
-    intro k hk
-    rw [c3] at hk
-    rw [c4, hnd, hxyz, m2]
-    refine ⟨hk, ?_⟩
-    match k, hk with
-    | 0, _ => rfl
-    | 1, _ => rfl
-    | 2, _ => rfl
-  obtain ⟨_, _, _, _, d5⟩ := div_eq c d ["x", "y", "z"] (fun k => k) hcd m1 (by rw [c3]; rfl) (by decide) hσ hd
-  have hcv : FullyValid c := fun i => by rw [c5 i]; exact hval i
-  intro i hi
-  obtain ⟨_, hin⟩ := hi
-  have i0 := hin 0 (by omega)
-  have i1 := hin 1 (by omega)
-  have i2 := hin 2 (by omega)
-  rw [d5 i, c3]
-  simp only [sumTo]
-  rw [D_of_sub v c 0 1 (ρ 2) 2 (ρ 1) 0 i hval hcv c4 (fun i' => (c6 i').1) (by omega) (by omega) i0 i1 i2,
-      D_of_sub v c 1 2 (ρ 0) 0 (ρ 2) 1 i hval hcv c4 (fun i' => (c6 i').2.1) (by omega) (by omega) i1 i2 i0,
-      D_of_sub v c 2 0 (ρ 1) 1 (ρ 0) 2 i hval hcv c4 (fun i' => (c6 i').2.2) (by omega) (by omega) i2 i0 i1,
-      DD_comm v 0 1 (ρ 2) i (by omega), DD_comm v 0 2 (ρ 1) i (by omega), DD_comm v 1 2 (ρ 0) i (by omega)]
-  ring
-
-/-- **Gradient is exact** on fields that are polynomials of degree ≤ 2 along every axis (in
-particular on every polynomial of total degree ≤ 2, `quadP_quadAlong`): component `a` of
-the result is the analytic partial derivative `∂P/∂x_a` at every cell centre. -/
-theorem grad_exact_quadratic (f g : Fld) (P : (Nat → Rat) → Rat) (P1 P2 : Nat → (Nat → Rat) → Rat)
-    (hdims : DimsOk f) (hs : SampledFrom f 0 P)
-    (hq : ∀ a, a < f.mesh.ndim → QuadAlong P a (P1 a) (P2 a)) (hm : ExactMesh f) (h : grad f = .ok g) :
-    ∀ i, InMesh f i → ∀ a, a < f.mesh.ndim → (g.data.get i).getD a 0 = P1 a (coords f i) := by
-  obtain ⟨_, _, _, _, g5⟩ := grad_eq f g hdims h
-  intro i hi a ha
-  obtain ⟨hp, hn, hh⟩ := hm.2 a ha
-  rw [g5 i a ha]
-  exact (D_exact f a 0 i P (P1 a) (P2 a) hs (hq a ha) hm.1 hp hn hh (by rw [hi.1]; exact ha) (hi.2 a ha)).1
-
-/-- **Divergence is exact**: with stored component `c` sampling `P c` and mapped onto axis
-`σ c`, the result is `Σ_c ∂(P c)/∂x_{σ c}` at every cell centre. -/
-theorem div_exact_quadratic (f g : Fld) (vs : List String) (σ : Nat → Nat)
-    (P : Nat → (Nat → Rat) → Rat) (P1 P2 : Nat → (Nat → Rat) → Rat)
-    (hdims : DimsOk f) (hv : f.vdims = some vs) (hvl : vs.length = f.nvdim) (hvd : hasDup vs = false)
-    (hσ : ∀ c, c < f.nvdim → σ c < f.mesh.ndim ∧
-      Fld.lookup f.vmap (vs.getD c "") = some (f.mesh.region.dims.getD (σ c) ""))
-    (hs : ∀ c, c < f.nvdim → SampledFrom f c (P c) ∧ QuadAlong (P c) (σ c) (P1 c) (P2 c))
-    (hm : ExactMesh f) (h : div f = .ok g) :
-    ∀ i, InMesh f i → (g.data.get i).getD 0 0 = sumTo f.nvdim fun c => P1 c (coords f i) := by
-  obtain ⟨_, _, _, _, g5⟩ := div_eq f g vs σ hdims hv hvl hvd hσ h
-  intro i hi
-  rw [g5 i]
-  apply sumTo_congr
-  intro c hc
-  obtain ⟨hp, hn, hh⟩ := hm.2 (σ c) (hσ c hc).1
-  exact (D_exact f (σ c) c i (P c) (P1 c) (P2 c) (hs c hc).1 (hs c hc).2 hm.1 hp hn hh
-    (by rw [hi.1]; exact (hσ c hc).1) (hi.2 _ (hσ c hc).1)).1
-
-/-- **Curl is exact**: with `ρ a` the stored component paired with axis `a`, sampling
-`P (ρ a)`, and `P1 c a = ∂(P c)/∂x_a`, the result is the analytic curl in axis order. -/
-theorem curl_exact_quadratic (f g : Fld) (vs : List String) (ρ : Nat → Nat)
-    (P : Nat → (Nat → Rat) → Rat) (P1 P2 : Nat → Nat → (Nat → Rat) → Rat)
-    (hdims : DimsOk f) (hv : f.vdims = some vs) (hvl : vs.length = f.nvdim) (hvd : hasDup vs = false)
-    (hρ : ∀ d, d < 3 → ρ d < 3 ∧ rDimLast f (f.mesh.region.dims.getD d "") = some (vs.getD (ρ d) ""))
-    (hs : ∀ c, c < 3 → SampledFrom f c (P c) ∧ ∀ a, a < 3 → QuadAlong (P c) a (P1 c a) (P2 c a))
-    (hm : ExactMesh f) (h : curl f = .ok g) :
-    ∀ i, InMesh f i →
-      (g.data.get i).getD 0 0 = P1 (ρ 2) 1 (coords f i) - P1 (ρ 1) 2 (coords f i) ∧
-      (g.data.get i).getD 1 0 = P1 (ρ 0) 2 (coords f i) - P1 (ρ 2) 0 (coords f i) ∧
-      (g.data.get i).getD 2 0 = P1 (ρ 1) 0 (coords f i) - P1 (ρ 0) 1 (coords f i) := by
-  obtain ⟨_, hnd, _, _, _, g6⟩ := curl_eq f g vs ρ hdims hv hvl hvd hρ h
-  intro i hi
-  have ex : ∀ c a, c < 3 → a < 3 → D f a 1 c i = P1 c a (coords f i) := by
-    intro c a hc ha
-    obtain ⟨hp, hn, hh⟩ := hm.2 a (by omega)
-    exact (D_exact f a c i (P c) (P1 c a) (P2 c a) (hs c hc).1 ((hs c hc).2 a ha) hm.1 hp hn hh
-      (by rw [hi.1]; omega) (hi.2 a (by omega))).1
-  obtain ⟨e0, e1, e2⟩ := g6 i
-  have r0 := (hρ 0 (by omega)).1
-  have r1 := (hρ 1 (by omega)).1
-  have r2 := (hρ 2 (by omega)).1
-  rw [e0, e1, e2, ex _ 1 r2 (by omega), ex _ 2 r1 (by omega), ex _ 2 r0 (by omega), ex _ 0 r2 (by omega),
-    ex _ 0 r1 (by omega), ex _ 1 r0 (by omega)]
-  exact ⟨rfl, rfl, rfl⟩
-
-/-- **Laplacian is exact** (scalar field): `Σ_a ∂²P/∂x_a²` at every cell centre. -/
-theorem laplace_exact_quadratic (f g : Fld) (P : (Nat → Rat) → Rat) (P1 P2 : Nat → (Nat → Rat) → Rat)
-    (hdims : DimsOk f) (hn1 : f.nvdim = 1) (hs : SampledFrom f 0 P)
-    (hq : ∀ a, a < f.mesh.ndim → QuadAlong P a (P1 a) (P2 a)) (hm : ExactMesh f) (h : laplace f = .ok g) :
-    ∀ i, InMesh f i → (g.data.get i).getD 0 0 = sumTo f.mesh.ndim fun a => P2 a (coords f i) := by
-  obtain ⟨_, _, _, g5⟩ := laplace_eq_scalar f g hdims hn1 h
-  intro i hi
-  rw [g5 i]
-  apply sumTo_congr
-  intro a ha
-  obtain ⟨hp, hn, hh⟩ := hm.2 a ha
-  exact (D_exact f a 0 i P (P1 a) (P2 a) hs (hq a ha) hm.1 hp hn hh (by rw [hi.1]; exact ha) (hi.2 a ha)).2
-
-/-- **Laplacian is exact** (vector field): component `c` is the Laplacian of `P c`. -/
-theorem laplace_exact_quadratic_vector (f g : Fld) (vs : List String)
-    (P : Nat → (Nat → Rat) → Rat) (P1 P2 : Nat → Nat → (Nat → Rat) → Rat)
-    (hdims : DimsOk f) (hn : f.nvdim ≠ 1) (hv : f.vdims = some vs) (hvl : vs.length = f.nvdim)
-    (hvd : hasDup vs = false)
-    (hs : ∀ c, c < f.nvdim → SampledFrom f c (P c) ∧ ∀ a, a < f.mesh.ndim → QuadAlong (P c) a (P1 c a) (P2 c a))
-    (hm : ExactMesh f) (h : laplace f = .ok g) :
-    ∀ i, InMesh f i → ∀ c, c < f.nvdim →
-      (g.data.get i).getD c 0 = sumTo f.mesh.ndim fun a => P2 c a (coords f i) := by
-  obtain ⟨_, _, _, g5⟩ := laplace_eq_vector f g vs hdims hn hv hvl hvd h
-  intro i hi c hc
-  rw [g5 i c hc]
-  apply sumTo_congr
-  intro a ha
-  obtain ⟨hp, hn', hh⟩ := hm.2 a ha
-  exact (D_exact f a c i (P c) (P1 c a) (P2 c a) (hs c hc).1 ((hs c hc).2 a ha) hm.1 hp hn' hh
-    (by rw [hi.1]; exact ha) (hi.2 a ha)).2
 
 /-- **Gradient accepts** every plain scalar field on a well-formed mesh (the converse of the
 refusal): together with `grad_refusal`, `grad` is refused exactly for non-scalar fields. -/
@@ -832,5 +550,679 @@ theorem laplace_accepts (f : Fld) (hdims : DimsOk f) (hpos : 1 ≤ f.mesh.ndim)
       apply stackGo_plain_succeeds ds' d0 (by rw [p0.2.2, p0.1]; simp) (by rw [p0.1])
       intro d hd
       exact ⟨(hall d (by simp [hd])).1, by rw [(hall d (by simp [hd])).2, (hall d0 (by simp)).2]⟩
+
+
+/-! ## 3. Mapping maintenance when labels change; what the results carry -/
+
+/-- **Relabelling keeps the pairing.**  Assigning new component labels to a field that has a
+mapping transports the mapping position by position: the new label of component `k` is
+mapped to what the old label of component `k` was mapped to.  Nothing else changes. -/
+theorem setVdims_keeps_map (f g : Fld) (old new : List String) (hold : f.vdims = some old)
+    (hlen : old.length = f.nvdim) (hmap : 0 < f.vmap.length) (hne : new ≠ [])
+    (h : setVdims f (some new) = .ok g) :
+    g.vdims = some new ∧ new.length = f.nvdim ∧ g.mesh = f.mesh ∧ g.data = f.data ∧ g.valid = f.valid ∧
+    g.nvdim = f.nvdim ∧
+    ∀ k, k < f.nvdim → Fld.lookup g.vmap (new.getD k "") = Fld.lookup f.vmap (old.getD k "") := by
+  unfold setVdims at h
+  split at h
+  · cases h
+  · rename_i r hr
+    obtain ⟨r1, r2, r3⟩ := vdimsSet_some hne hr
+    subst r1
+    rw [hold] at h
+    simp only [] at h
+    rw [if_pos hmap] at h
+    split at h
+    · cases h
+    · rename_i mp hmp
+      unfold setVmap at h
+      split at h
+      · cases h
+      · rename_i mp' hmp'
+        injection h with h; subst h
+        refine ⟨rfl, r2, rfl, rfl, rfl, rfl, ?_⟩
+        have hmm : mp' = mp := by
+          unfold vmapSet at hmp'
+          simp only [] at hmp'
+          split at hmp'
+          · rename_i hc; exact absurd hc.2.2 (by simp)
+          · split at hmp'
+            · split at hmp'
+              · injection hmp' with e; exact e.symm
+              · cases hmp'
+            · injection hmp' with e; exact e.symm
+        rw [hmm]
+        intro k hk
+        exact transportMap_lookup f.vmap new old mp r3 (by omega) hmp k (by omega)
+
+/-- **Label spelling is irrelevant**: relabelling the components (the mapping is carried
+along by `setVdims_keeps_map`) leaves the divergence unchanged at every cell. -/
+theorem div_relabel (f f' g g' : Fld) (old new : List String) (σ : Nat → Nat) (hdims : DimsOk f)
+    (hold : f.vdims = some old) (hlen : old.length = f.nvdim) (hod : hasDup old = false)
+    (hmap : 0 < f.vmap.length) (hne : new ≠ [])
+    (hσ : ∀ c, c < f.nvdim → σ c < f.mesh.ndim ∧
+      Fld.lookup f.vmap (old.getD c "") = some (f.mesh.region.dims.getD (σ c) ""))
+    (hset : setVdims f (some new) = .ok f') (h : div f = .ok g) (h' : div f' = .ok g') :
+    ∀ i, (g'.data.get i).getD 0 0 = (g.data.get i).getD 0 0 := by
+  obtain ⟨s1, s2, s3, s4, s5, s6, s7⟩ := setVdims_keeps_map f f' old new hold hlen hmap hne hset
+  have hnd : hasDup new = false := by
+    unfold setVdims at hset
+    split at hset
+    · cases hset
+    · rename_i r hr
+      exact (vdimsSet_some hne hr).2.2
+  have hdims' : DimsOk f' := by unfold DimsOk; rw [s3]; exact hdims
+  have hσ' : ∀ c, c < f'.nvdim → σ c < f'.mesh.ndim ∧
+      Fld.lookup f'.vmap (new.getD c "") = some (f'.mesh.region.dims.getD (σ c) "") := by
+    intro c hc
+    rw [s6] at hc
+    rw [s3, s7 c hc]
+    exact hσ c hc
+  obtain ⟨_, _, _, _, e⟩ := div_eq f g old σ hdims hold hlen hod hσ h
+  obtain ⟨_, _, _, _, e'⟩ := div_eq f' g' new σ hdims' s1 (by rw [s2, s6]) hnd hσ' h'
+  intro i
+  rw [e i, e' i, s6]
+  apply sumTo_congr
+  intro c _
+  unfold D periodic NDA.line
+  rw [s3, s4, s5]
+
+/-- **† The vector Laplacian forgets the operand's labels and mapping** (candidate finding
+D21).  Whatever labels and whatever component-to-axis mapping the operand carries, the
+result is labelled positionally (`x,y,z` / `v0,…`) and, when `nvdim = ndim`, mapped
+positionally (`label k ↦ axis k`), while by `laplace_eq_vector` its components stay in the
+operand's STORAGE order.  Hence for an operand whose mapping is a non-identity permutation
+the result pairs axis `d` with the Laplacian of a component that belongs to another axis;
+the full-strength claim "the Laplacian of the component paired with `d` is the component of
+the result paired with `d`" is false of the code as it stands (witness below). -/
+theorem laplace_vector_meta (f g : Fld) (vs : List String) (hn : 2 ≤ f.nvdim)
+    (hv : f.vdims = some vs) (hvl : vs.length = f.nvdim) (h : laplace f = .ok g) :
+    g.vdims = posVdims g.nvdim ∧ g.vmap = posVmap g.mesh g.nvdim := by
+  unfold laplace at h
+  have h1 : ¬ (f.nvdim = 1) := by omega
+  rw [if_neg h1, hv] at h
+  simp only [] at h
+  split at h
+  · cases h
+  · rename_i ds hds
+    obtain ⟨l, _⟩ := mapE_ok _ _ _ hds
+    have hpl : ∀ d ∈ ds, Plain d := mapE_all _ Plain (fun x y hy => lapComp_plain hy) _ _ hds
+    cases ds with
+    | nil => simp [stack] at h
+    | cons d0 ds' =>
+      simp only [stack] at h
+      have hne : ds' ≠ [] := by
+        intro he; subst he; simp at l; omega
+      have p0 := hpl d0 (by simp)
+      exact stackGo_meta ds' d0 g hne (fun d hd => hpl d (by simp [hd])) (by rw [p0.2.2, p0.1]; simp) (by rw [p0.1]) h
+
+
+/-! ## 4. Exactness on polynomials of degree ≤ 2 (n ≥ 3 per axis, open, fully valid) -/
+
+/-- LINE-LEVEL EXACTNESS: if along the line through `i` the values are a quadratic in the
+offset from cell `i` (`p0 + p1·s + p2/2·s²`, `s` = distance along the axis), the first and
+second derivative at `i` are `p1` and `p2` — at the first cell, in the interior, at the last
+cell of a fully valid open line of at least 3 cells -/
+theorem D_exact_line (f : Fld) (ax c : Nat) (i : List Nat) (p0 p1 p2 : Rat)
+    (hper : periodic f ax = false) (hn : 3 ≤ f.mesh.nAt ax) (hh : f.mesh.cellAt ax ≠ 0)
+    (hi : i.getD ax 0 < f.mesh.nAt ax)
+    (hv : ∀ j, j < f.mesh.nAt ax → f.valid.line ax i j = true)
+    (hT : ∀ j, j < f.mesh.nAt ax → (f.data.line ax i j).getD c 0
+        = p0 + p1 * (((j : Rat) - (i.getD ax 0 : Nat)) * f.mesh.cellAt ax)
+          + p2 / 2 * (((j : Rat) - (i.getD ax 0 : Nat)) * f.mesh.cellAt ax) ^ 2) :
+    D f ax 1 c i = p1 ∧ D f ax 2 c i = p2 := by
+  have key : ∀ o, D f ax o c i = dAt o (f.mesh.cellAt ax) (f.mesh.nAt ax)
+      (fun k => p0 + p1 * (-((i.getD ax 0 : Nat) : Rat) * f.mesh.cellAt ax + (k : Rat) * f.mesh.cellAt ax)
+        + p2 / 2 * (-((i.getD ax 0 : Nat) : Rat) * f.mesh.cellAt ax + (k : Rat) * f.mesh.cellAt ax) ^ 2) (i.getD ax 0) := by
+    intro o
+    rw [D_open_all_valid f ax o c i hper hv hi]
+    apply dAt_congr _ _ _ _ _ _ _ hi
+    intro k hk
+    rw [hT k hk]; ring
+  constructor
+  · rw [key 1]
+    unfold dAt
+    simp only [if_true]
+    rw [d1_exact p0 p1 (p2 / 2) _ _ hh _ hn _ hi]
+    ring
+  · rw [key 2]
+    unfold dAt
+    simp only [show ¬ ((2 : Nat) = 1) by omega, if_false]
+    by_cases h4 : 4 ≤ f.mesh.nAt ax
+    · have := d2_exact p0 p1 (p2 / 2) 0 (-((i.getD ax 0 : Nat) : Rat) * f.mesh.cellAt ax) _ hh _ h4 _ hi
+      simp only [zero_mul, add_zero, mul_zero] at this
+      rw [this]; ring
+    · have h3 : f.mesh.nAt ax = 3 := by omega
+      rw [h3, d2_exact_three p0 p1 (p2 / 2) _ _ hh]
+      ring
+
+/-- FIELD-LEVEL EXACTNESS of `diff`: a component that samples a function which is quadratic
+along axis `ax` is differentiated exactly (first and second derivative) at every cell of a
+fully valid open mesh with at least three cells along `ax`. -/
+theorem D_exact (f : Fld) (ax c : Nat) (i : List Nat) (P P1 P2 : (Nat → Rat) → Rat)
+    (hs : SampledFrom f c P) (hq : QuadAlong P ax P1 P2) (hval : FullyValid f)
+    (hper : periodic f ax = false) (hn : 3 ≤ f.mesh.nAt ax) (hh : f.mesh.cellAt ax ≠ 0)
+    (hax : ax < i.length) (hi : i.getD ax 0 < f.mesh.nAt ax) :
+    D f ax 1 c i = P1 (coords f i) ∧ D f ax 2 c i = P2 (coords f i) := by
+  apply D_exact_line f ax c i (P (coords f i)) (P1 (coords f i)) (P2 (coords f i)) hper hn hh hi
+  · intro j _; exact hval _
+  · intro j _
+    unfold NDA.line
+    rw [hs (setAt i ax j), coords_setAt f i ax j hax, hq]
+
+/-- every polynomial of total degree ≤ 2 is quadratic along every axis, with the textbook
+partial derivatives -/
+theorem quadP_quadAlong (n : Nat) (c0 : Rat) (b : Nat → Rat) (q : Nat → Nat → Rat) (ax : Nat) (hax : ax < n) :
+    QuadAlong (quadP n c0 b q) ax (quadP1 n b q ax) (fun _ => 2 * q ax ax) := by
+  intro x s
+  rw [upd_add]
+  unfold quadP quadP1
+  -- linear part
+  have l1 : sumTo n (fun a => b a * (x a + s * (if a = ax then (1 : Rat) else 0)))
+      = sumTo n (fun a => b a * x a) + s * b ax := by
+    rw [sumTo_congr n _ (fun a => b a * x a + s * 0 + s * ((if a = ax then (1 : Rat) else 0) * b a) + 0 * 0)
+      (fun a _ => by ring)]
+    rw [sumTo_lin4, sumTo_delta n ax hax, sumTo_zero]
+    ring
+  -- inner sums of the quadratic part
+  have inner : ∀ a, sumTo n (fun a' => q a a' * (x a + s * (if a = ax then (1 : Rat) else 0))
+        * (x a' + s * (if a' = ax then (1 : Rat) else 0)))
+      = sumTo n (fun a' => q a a' * x a * x a')
+        + s * ((if a = ax then (1 : Rat) else 0) * sumTo n (fun a' => q a a' * x a'))
+        + s * (x a * q a ax) + s ^ 2 * ((if a = ax then (1 : Rat) else 0) * q a ax) := by
+    intro a
+    rw [sumTo_congr n _ (fun a' => q a a' * x a * x a'
+        + s * ((if a = ax then (1 : Rat) else 0) * (q a a' * x a'))
+        + s * ((if a' = ax then (1 : Rat) else 0) * (x a * q a a'))
+        + s ^ 2 * ((if a' = ax then (1 : Rat) else 0) * ((if a = ax then (1 : Rat) else 0) * q a a')))
+      (fun a' _ => by ring)]
+    rw [sumTo_lin4, sumTo_delta n ax hax, sumTo_delta n ax hax]
+    have : sumTo n (fun a' => (if a = ax then (1 : Rat) else 0) * (q a a' * x a'))
+        = (if a = ax then (1 : Rat) else 0) * sumTo n (fun a' => q a a' * x a') :=
+      sumTo_mul_left n _ _
+    rw [this]
+  have l2 : sumTo n (fun a => sumTo n fun a' => q a a' * (x a + s * (if a = ax then (1 : Rat) else 0))
+        * (x a' + s * (if a' = ax then (1 : Rat) else 0)))
+      = sumTo n (fun a => sumTo n fun a' => q a a' * x a * x a')
+        + s * sumTo n (fun a' => q ax a' * x a') + s * sumTo n (fun a => q a ax * x a) + s ^ 2 * q ax ax := by
+    rw [sumTo_congr n _ _ (fun a _ => inner a)]
+    rw [sumTo_congr n _ (fun a => sumTo n (fun a' => q a a' * x a * x a')
+        + s * ((if a = ax then (1 : Rat) else 0) * sumTo n (fun a' => q a a' * x a'))
+        + s * (q a ax * x a) + s ^ 2 * ((if a = ax then (1 : Rat) else 0) * q a ax))
+      (fun a _ => by ring)]
+    rw [sumTo_lin4, sumTo_delta n ax hax, sumTo_delta n ax hax]
+  rw [l1, l2]
+  have l3 : sumTo n (fun a => (q ax a + q a ax) * x a)
+      = sumTo n (fun a' => q ax a' * x a') + sumTo n (fun a => q a ax * x a) := by
+    rw [← sumTo_add]
+    exact sumTo_congr n _ _ (fun a _ => by ring)
+  rw [l3]
+  ring
+
+/-- **Gradient is exact** on fields that are polynomials of degree ≤ 2 along every axis (in
+particular on every polynomial of total degree ≤ 2, `quadP_quadAlong`): component `a` of
+the result is the analytic partial derivative `∂P/∂x_a` at every cell centre. -/
+theorem grad_exact_quadratic (f g : Fld) (P : (Nat → Rat) → Rat) (P1 P2 : Nat → (Nat → Rat) → Rat)
+    (hdims : DimsOk f) (hs : SampledFrom f 0 P)
+    (hq : ∀ a, a < f.mesh.ndim → QuadAlong P a (P1 a) (P2 a)) (hm : ExactMesh f) (h : grad f = .ok g) :
+    ∀ i, InMesh f i → ∀ a, a < f.mesh.ndim → (g.data.get i).getD a 0 = P1 a (coords f i) := by
+  obtain ⟨_, _, _, _, g5⟩ := grad_eq f g hdims h
+  intro i hi a ha
+  obtain ⟨hp, hn, hh⟩ := hm.2 a ha
+  rw [g5 i a ha]
+  exact (D_exact f a 0 i P (P1 a) (P2 a) hs (hq a ha) hm.1 hp hn hh (by rw [hi.1]; exact ha) (hi.2 a ha)).1
+
+/-- **Divergence is exact**: with stored component `c` sampling `P c` and mapped onto axis
+`σ c`, the result is `Σ_c ∂(P c)/∂x_{σ c}` at every cell centre. -/
+theorem div_exact_quadratic (f g : Fld) (vs : List String) (σ : Nat → Nat)
+    (P : Nat → (Nat → Rat) → Rat) (P1 P2 : Nat → (Nat → Rat) → Rat)
+    (hdims : DimsOk f) (hv : f.vdims = some vs) (hvl : vs.length = f.nvdim) (hvd : hasDup vs = false)
+    (hσ : ∀ c, c < f.nvdim → σ c < f.mesh.ndim ∧
+      Fld.lookup f.vmap (vs.getD c "") = some (f.mesh.region.dims.getD (σ c) ""))
+    (hs : ∀ c, c < f.nvdim → SampledFrom f c (P c) ∧ QuadAlong (P c) (σ c) (P1 c) (P2 c))
+    (hm : ExactMesh f) (h : div f = .ok g) :
+    ∀ i, InMesh f i → (g.data.get i).getD 0 0 = sumTo f.nvdim fun c => P1 c (coords f i) := by
+  obtain ⟨_, _, _, _, g5⟩ := div_eq f g vs σ hdims hv hvl hvd hσ h
+  intro i hi
+  rw [g5 i]
+  apply sumTo_congr
+  intro c hc
+  obtain ⟨hp, hn, hh⟩ := hm.2 (σ c) (hσ c hc).1
+  exact (D_exact f (σ c) c i (P c) (P1 c) (P2 c) (hs c hc).1 (hs c hc).2 hm.1 hp hn hh
+    (by rw [hi.1]; exact (hσ c hc).1) (hi.2 _ (hσ c hc).1)).1
+
+/-- **Curl is exact**: with `ρ a` the stored component paired with axis `a`, sampling
+`P (ρ a)`, and `P1 c a = ∂(P c)/∂x_a`, the result is the analytic curl in axis order. -/
+theorem curl_exact_quadratic (f g : Fld) (vs : List String) (ρ : Nat → Nat)
+    (P : Nat → (Nat → Rat) → Rat) (P1 P2 : Nat → Nat → (Nat → Rat) → Rat)
+    (hdims : DimsOk f) (hv : f.vdims = some vs) (hvl : vs.length = f.nvdim) (hvd : hasDup vs = false)
+    (hρ : ∀ d, d < 3 → ρ d < 3 ∧ rDimLast f (f.mesh.region.dims.getD d "") = some (vs.getD (ρ d) ""))
+    (hs : ∀ c, c < 3 → SampledFrom f c (P c) ∧ ∀ a, a < 3 → QuadAlong (P c) a (P1 c a) (P2 c a))
+    (hm : ExactMesh f) (h : curl f = .ok g) :
+    ∀ i, InMesh f i →
+      (g.data.get i).getD 0 0 = P1 (ρ 2) 1 (coords f i) - P1 (ρ 1) 2 (coords f i) ∧
+      (g.data.get i).getD 1 0 = P1 (ρ 0) 2 (coords f i) - P1 (ρ 2) 0 (coords f i) ∧
+      (g.data.get i).getD 2 0 = P1 (ρ 1) 0 (coords f i) - P1 (ρ 0) 1 (coords f i) := by
+  obtain ⟨_, hnd, _, _, _, g6⟩ := curl_eq f g vs ρ hdims hv hvl hvd hρ h
+  intro i hi
+  have ex : ∀ c a, c < 3 → a < 3 → D f a 1 c i = P1 c a (coords f i) := by
+    intro c a hc ha
+    obtain ⟨hp, hn, hh⟩ := hm.2 a (by omega)
+    exact (D_exact f a c i (P c) (P1 c a) (P2 c a) (hs c hc).1 ((hs c hc).2 a ha) hm.1 hp hn hh
+      (by rw [hi.1]; omega) (hi.2 a (by omega))).1
+  obtain ⟨e0, e1, e2⟩ := g6 i
+  have r0 := (hρ 0 (by omega)).1
+  have r1 := (hρ 1 (by omega)).1
+  have r2 := (hρ 2 (by omega)).1
+  rw [e0, e1, e2, ex _ 1 r2 (by omega), ex _ 2 r1 (by omega), ex _ 2 r0 (by omega), ex _ 0 r2 (by omega),
+    ex _ 0 r1 (by omega), ex _ 1 r0 (by omega)]
+  exact ⟨rfl, rfl, rfl⟩
+
+/-- **Laplacian is exact** (scalar field): `Σ_a ∂²P/∂x_a²` at every cell centre. -/
+theorem laplace_exact_quadratic (f g : Fld) (P : (Nat → Rat) → Rat) (P1 P2 : Nat → (Nat → Rat) → Rat)
+    (hdims : DimsOk f) (hn1 : f.nvdim = 1) (hs : SampledFrom f 0 P)
+    (hq : ∀ a, a < f.mesh.ndim → QuadAlong P a (P1 a) (P2 a)) (hm : ExactMesh f) (h : laplace f = .ok g) :
+    ∀ i, InMesh f i → (g.data.get i).getD 0 0 = sumTo f.mesh.ndim fun a => P2 a (coords f i) := by
+  obtain ⟨_, _, _, g5⟩ := laplace_eq_scalar f g hdims hn1 h
+  intro i hi
+  rw [g5 i]
+  apply sumTo_congr
+  intro a ha
+  obtain ⟨hp, hn, hh⟩ := hm.2 a ha
+  exact (D_exact f a 0 i P (P1 a) (P2 a) hs (hq a ha) hm.1 hp hn hh (by rw [hi.1]; exact ha) (hi.2 a ha)).2
+
+/-- **Laplacian is exact** (vector field): component `c` is the Laplacian of `P c`. -/
+theorem laplace_exact_quadratic_vector (f g : Fld) (vs : List String)
+    (P : Nat → (Nat → Rat) → Rat) (P1 P2 : Nat → Nat → (Nat → Rat) → Rat)
+    (hdims : DimsOk f) (hn : f.nvdim ≠ 1) (hv : f.vdims = some vs) (hvl : vs.length = f.nvdim)
+    (hvd : hasDup vs = false)
+    (hs : ∀ c, c < f.nvdim → SampledFrom f c (P c) ∧ ∀ a, a < f.mesh.ndim → QuadAlong (P c) a (P1 c a) (P2 c a))
+    (hm : ExactMesh f) (h : laplace f = .ok g) :
+    ∀ i, InMesh f i → ∀ c, c < f.nvdim →
+      (g.data.get i).getD c 0 = sumTo f.mesh.ndim fun a => P2 c a (coords f i) := by
+  obtain ⟨_, _, _, g5⟩ := laplace_eq_vector f g vs hdims hn hv hvl hvd h
+  intro i hi c hc
+  rw [g5 i c hc]
+  apply sumTo_congr
+  intro a ha
+  obtain ⟨hp, hn', hh⟩ := hm.2 a ha
+  exact (D_exact f a c i (P c) (P1 c a) (P2 c a) (hs c hc).1 ((hs c hc).2 a ha) hm.1 hp hn' hh
+    (by rw [hi.1]; exact ha) (hi.2 a ha)).2
+
+
+/-! ## 5. Derivatives along different axes commute; curl grad = 0, div curl = 0 -/
+
+/-- **Derivatives along different axes commute** on a fully valid mesh (any orders 1/2,
+open or periodic directions, any cell sizes): `∂_a^{oa}(∂_b^{ob} f) = ∂_b^{ob}(∂_a^{oa} f)`
+at every cell — they act on different index positions. -/
+theorem diff_comm (f ga gb : Fld) (a b oa ob c : Nat) (i : List Nat) (hf : FullyValid f) (hab : a ≠ b)
+    (ha : C04.diff f a oa true = .ok ga) (hb : C04.diff f b ob true = .ok gb) (hc : c < f.nvdim)
+    (hia : i.getD a 0 < f.mesh.nAt a) (hib : i.getD b 0 < f.mesh.nAt b) :
+    D gb a oa c i = D ga b ob c i := by
+  obtain ⟨a1, _, a3, _, _, _, a7, _⟩ := diff_ok ha
+  obtain ⟨b1, _, b3, _, _, _, b7, _⟩ := diff_ok hb
+  have side : ∀ (g : Fld) (p q op oq : Nat), p ≠ q → (op = 1 ∨ op = 2) → (oq = 1 ∨ oq = 2) →
+      g.mesh = f.mesh → g.valid = f.valid →
+      (∀ i', (g.data.get i').getD c 0 = D f q oq c i') →
+      i.getD p 0 < f.mesh.nAt p → i.getD q 0 < f.mesh.nAt q →
+      D g p op c i = lineD (periodic f p) op (f.mesh.cellAt p) (f.mesh.nAt p)
+        (fun k => lineD (periodic f q) oq (f.mesh.cellAt q) (f.mesh.nAt q)
+          (fun l => (f.data.get (setAt (setAt i p k) q l)).getD c 0) (i.getD q 0)) (i.getD p 0) := by
+    intro g p q op oq hpq hop hoq hm hv hdata hip hiq
+    rw [D_all_valid g p op c i hop (fun j _ => by unfold NDA.line; rw [hv]; exact hf _) (by rw [hm]; exact hip)]
+    unfold periodic
+    rw [hm]
+    apply lineD_congr
+    intro k
+    unfold NDA.line
+    rw [hdata, D_all_valid f q oq c _ hoq (fun j _ => hf _)
+      (by rw [getD_setAt_ne _ _ _ _ _ (Ne.symm hpq)]; exact hiq), getD_setAt_ne _ _ _ _ _ (Ne.symm hpq)]
+    rfl
+  rw [side gb a b oa ob hab a7 b7 b1 b3 (fun i' => diff_data hb i' c hc) hia hib,
+      side ga b a ob oa (Ne.symm hab) b7 a7 a1 a3 (fun i' => diff_data ha i' c hc) hib hia,
+      lineD_comm]
+  apply lineD_congr
+  intro l
+  apply lineD_congr
+  intro k
+  rw [setAt_comm _ _ _ _ _ hab]
+
+/-- **curl(grad f) = 0**, exactly, at every cell of every fully valid 3-d mesh — any cell
+counts (also 1 or 2 per axis), any anisotropic cell sizes, open and periodic directions in
+any combination: the two mixed second differences that make up each component are the
+same number because stencils along different axes commute. -/
+theorem curl_grad_zero (f g r : Fld) (hdims : DimsOk f) (hp : Plain f) (hnd : f.mesh.ndim = 3)
+    (hval : FullyValid f) (hg : grad f = .ok g) (hr : curl g = .ok r) :
+    ∀ i, InMesh f i → ∀ k, k < 3 → (r.data.get i).getD k 0 = 0 := by
+  obtain ⟨x, y, z, hxyz, hxy, hxz, hyz⟩ := dims3 f hdims hnd
+  obtain ⟨_, g2, g3, g4, g5⟩ := grad_eq f g hdims hg
+  have hl2 : 2 ≤ f.mesh.region.dims.length := by rw [hxyz]; simp
+  obtain ⟨m1, m2⟩ := grad_meta f g hp hl2 hg
+  rw [g2, hnd] at m1 m2
+  rw [posVdims3] at m1
+  rw [posVmap3 g.mesh x y z (by rw [g3]; exact hxyz) (by rw [g3]; exact hnd)] at m2
+  have hgd : DimsOk g := by unfold DimsOk; rw [g3]; exact hdims
+  obtain ⟨r1, r2, r3⟩ := rDimLast_pos g x y z hxy hxz hyz m2
+  have hρ : ∀ d, d < 3 → (fun d => d) d < 3 ∧
+      rDimLast g (g.mesh.region.dims.getD d "") = some (["x", "y", "z"].getD ((fun d => d) d) "") := by
+    intro d hd
+    rw [g3, hxyz]
+    refine ⟨hd, ?_⟩
+    match d, hd with
+    | 0, _ => exact r1
+    | 1, _ => exact r2
+    | 2, _ => exact r3
+  obtain ⟨_, _, _, _, _, c6⟩ := curl_eq g r ["x", "y", "z"] (fun d => d) hgd m1 (by rw [g2, hnd]; rfl) (by decide) hρ hr
+  have hgv : FullyValid g := fun i => by rw [g4 i]; exact hval i
+  intro i hi k hk
+  obtain ⟨_, hin⟩ := hi
+  have i0 := hin 0 (by omega)
+  have i1 := hin 1 (by omega)
+  have i2 := hin 2 (by omega)
+  have dd : ∀ a b, a < 3 → b < 3 → a ≠ b → i.getD a 0 < f.mesh.nAt a → i.getD b 0 < f.mesh.nAt b →
+      D g a 1 b i = DD f a b 0 i := by
+    intro a b _ hb hab ha' hb'
+    exact D_of_D f g a b 0 b i hval hgv g3 (fun i' => g5 i' b (by omega)) hab ha' hb'
+  obtain ⟨e0, e1, e2⟩ := c6 i
+  match k, hk with
+  | 0, _ => rw [e0, dd 1 2 (by omega) (by omega) (by omega) i1 i2, dd 2 1 (by omega) (by omega) (by omega) i2 i1,
+              DD_comm f 1 2 0 i (by omega)]; ring
+  | 1, _ => rw [e1, dd 2 0 (by omega) (by omega) (by omega) i2 i0, dd 0 2 (by omega) (by omega) (by omega) i0 i2,
+              DD_comm f 2 0 0 i (by omega)]; ring
+  | 2, _ => rw [e2, dd 0 1 (by omega) (by omega) (by omega) i0 i1, dd 1 0 (by omega) (by omega) (by omega) i1 i0,
+              DD_comm f 0 1 0 i (by omega)]; ring
+
+/-- `curl` accepts the gradient of every plain scalar field on a 3-d mesh with well-formed
+axis names: the hypotheses `hg`, `hr` of `curl_grad_zero` are met by every such field. -/
+theorem curl_grad_defined (f : Fld) (hdims : DimsOk f) (hp : Plain f) (hnd : f.mesh.ndim = 3) :
+    ∃ g r, grad f = .ok g ∧ curl g = .ok r := by
+  obtain ⟨g, hg⟩ := grad_accepts f hp hdims (by omega)
+  obtain ⟨x, y, z, hxyz, hxy, hxz, hyz⟩ := dims3 f hdims hnd
+  obtain ⟨_, g2, g3, _, _⟩ := grad_eq f g hdims hg
+  have hl2 : 2 ≤ f.mesh.region.dims.length := by rw [hxyz]; simp
+  obtain ⟨m1, m2⟩ := grad_meta f g hp hl2 hg
+  rw [g2, hnd] at m1 m2
+  rw [posVdims3] at m1
+  rw [posVmap3 g.mesh x y z (by rw [g3]; exact hxyz) (by rw [g3]; exact hnd)] at m2
+  have hgd : DimsOk g := by unfold DimsOk; rw [g3]; exact hdims
+  obtain ⟨r1, r2, r3⟩ := rDimLast_pos g x y z hxy hxz hyz m2
+  have hgx : g.mesh.region.dims = [x, y, z] := by rw [g3]; exact hxyz
+  obtain ⟨r, hr⟩ := curl_accepts g ["x", "y", "z"] (fun d => d) (fun d => d) hgd (by rw [g2, hnd]) (by rw [g3]; exact hnd)
+    m1 (by rw [g2, hnd]; rfl) (by decide)
+    (by
+      intro c hc
+      rw [hgx, m2]
+      refine ⟨hc, ?_⟩
+      match c, hc with
+      | 0, _ => rfl
+      | 1, _ => rfl
+      | 2, _ => rfl)
+    (by
+      intro d hd
+      rw [hgx]
+      refine ⟨hd, ?_⟩
+      match d, hd with
+      | 0, _ => exact r1
+      | 1, _ => exact r2
+      | 2, _ => exact r3)
+  exact ⟨g, r, hg, hr⟩
+
+/-- **div(curl v) = 0**, exactly, at every cell of every fully valid 3-d mesh, for every
+one-to-one pairing of the three stored components with the three axes (`ρ`), open and
+periodic directions alike. -/
+theorem div_curl_zero (v c d : Fld) (vs : List String) (ρ : Nat → Nat) (hdims : DimsOk v)
+    (hv : v.vdims = some vs) (hvl : vs.length = v.nvdim) (hvd : hasDup vs = false)
+    (hρ : ∀ a, a < 3 → ρ a < 3 ∧ rDimLast v (v.mesh.region.dims.getD a "") = some (vs.getD (ρ a) ""))
+    (hval : FullyValid v) (hc : curl v = .ok c) (hd : div c = .ok d) :
+    ∀ i, InMesh v i → (d.data.get i).getD 0 0 = 0 := by
+  obtain ⟨_, hnd, c3, c4, c5, c6⟩ := curl_eq v c vs ρ hdims hv hvl hvd hρ hc
+  obtain ⟨x, y, z, hxyz, hxy, hxz, hyz⟩ := dims3 v hdims hnd
+  obtain ⟨m1, m2⟩ := curl_meta v c hc
+  rw [posVdims3] at m1
+  rw [posVmap3 v.mesh x y z hxyz (by unfold Mesh.ndim at hnd; exact hnd)] at m2
+  have hcd : DimsOk c := by unfold DimsOk; rw [c4]; exact hdims
+  have hσ : ∀ k, k < c.nvdim → (fun k => k) k < c.mesh.ndim ∧
+      Fld.lookup c.vmap (["x", "y", "z"].getD k "") = some (c.mesh.region.dims.getD ((fun k => k) k) "") := by
+    intro k hk
+    rw [c3] at hk
+    rw [c4, hnd, hxyz, m2]
+    refine ⟨hk, ?_⟩
+    match k, hk with
+    | 0, _ => rfl
+    | 1, _ => rfl
+    | 2, _ => rfl
+  obtain ⟨_, _, _, _, d5⟩ := div_eq c d ["x", "y", "z"] (fun k => k) hcd m1 (by rw [c3]; rfl) (by decide) hσ hd
+  have hcv : FullyValid c := fun i => by rw [c5 i]; exact hval i
+  intro i hi
+  obtain ⟨_, hin⟩ := hi
+  have i0 := hin 0 (by omega)
+  have i1 := hin 1 (by omega)
+  have i2 := hin 2 (by omega)
+  rw [d5 i, c3]
+  simp only [sumTo]
+  rw [D_of_sub v c 0 1 (ρ 2) 2 (ρ 1) 0 i hval hcv c4 (fun i' => (c6 i').1) (by omega) (by omega) i0 i1 i2,
+      D_of_sub v c 1 2 (ρ 0) 0 (ρ 2) 1 i hval hcv c4 (fun i' => (c6 i').2.1) (by omega) (by omega) i1 i2 i0,
+      D_of_sub v c 2 0 (ρ 1) 1 (ρ 0) 2 i hval hcv c4 (fun i' => (c6 i').2.2) (by omega) (by omega) i2 i0 i1,
+      DD_comm v 0 1 (ρ 2) i (by omega), DD_comm v 0 2 (ρ 1) i (by omega), DD_comm v 1 2 (ρ 0) i (by omega)]
+  ring
+
+/-- `div` accepts the curl of every field `curl` accepts -/
+theorem div_curl_defined (v c : Fld) (hdims : DimsOk v) (hc : curl v = .ok c) : ∃ d, div c = .ok d := by
+  obtain ⟨hn, hnd, vs, hv, _, _⟩ := curl_accepts_only v c hc
+  obtain ⟨m1, m2⟩ := curl_meta v c hc
+  obtain ⟨x, y, z, hxyz, _, _, _⟩ := dims3 v hdims hnd
+  rw [posVdims3] at m1
+  rw [posVmap3 v.mesh x y z hxyz (by unfold Mesh.ndim at hnd; exact hnd)] at m2
+  -- mesh and component count of the curl
+  have hmesh : c.mesh = v.mesh ∧ c.nvdim = 3 := by
+    unfold curl at hc
+    split at hc
+    · cases hc
+    · split at hc
+      · cases hc
+      · split at hc
+        · cases hc
+        · split at hc
+          · split at hc
+            · cases hc
+            · rename_i cx hcx
+              split at hc
+              · cases hc
+              · rename_i cy hcy
+                split at hc
+                · cases hc
+                · rename_i cz hcz
+                  split at hc
+                  · cases hc
+                  · rename_i cxy hcxy
+                    obtain ⟨u1, _, u2, _⟩ := lshift_ok hcxy
+                    obtain ⟨w1, _, w2, _⟩ := lshift_ok hc
+                    have px := curlComp_plain hcx
+                    have py := curlComp_plain hcy
+                    have pz := curlComp_plain hcz
+                    refine ⟨?_, by rw [w2, u2, px.1, py.1, pz.1]⟩
+                    rw [w1, u1]
+                    -- mesh of a curl component
+                    unfold curlComp compOfDim at hcx
+                    split at hcx
+                    · cases hcx
+                    · rename_i k1 hk1
+                      split at hcx
+                      · cases hcx
+                      · rename_i t1 ht1
+                        split at hcx
+                        · cases hcx
+                        · split at hcx
+                          · cases hcx
+                          · have e1 := (binop_ok hcx).1
+                            have e2 : t1.mesh = k1.mesh := by
+                              unfold diffDim at ht1
+                              split at ht1
+                              · cases ht1
+                              · split at ht1
+                                · cases ht1
+                                · exact (diff_ok ht1).1
+                            have e3 : k1.mesh = v.mesh := by
+                              cases hq : rDimLast v _ with
+                              | none => rw [hq] at hk1; cases hk1
+                              | some l =>
+                                rw [hq] at hk1
+                                cases hk : v.vdimIndex l with
+                                | none => simp only [getComp, hk] at hk1; cases hk1
+                                | some k => exact (getComp_ok hk hk1).1
+                            rw [e1, e2, e3]
+          · cases hc
+  obtain ⟨c4, c3⟩ := hmesh
+  have hcd : DimsOk c := by unfold DimsOk; rw [c4]; exact hdims
+  exact div_accepts c ["x", "y", "z"] (fun k => k) hcd (by rw [c3, c4, hnd]) (by rw [c3]; omega) m1 (by rw [c3]; rfl) (by decide)
+    (by
+      intro k hk
+      rw [c3] at hk
+      rw [c4, hnd, hxyz, m2]
+      refine ⟨hk, ?_⟩
+      match k, hk with
+      | 0, _ => rfl
+      | 1, _ => rfl
+      | 2, _ => rfl)
+
+
+/-! ## 6. Reversal of a run (what quarter-turn rotations do to a line) -/
+
+/-- reversing a run negates the first-derivative stencil (and mirrors the position) -/
+theorem d1_reverse (h : Rat) (L : Nat) (g : Nat → Rat) (i : Nat) (hi : i < L) :
+    d1At h L (fun k => g (L - 1 - k)) i = - d1At h L g (L - 1 - i) := by
+  unfold d1At
+  by_cases h1 : L < 2
+  · simp [h1]
+  · by_cases h2 : L = 2
+    · subst h2
+      simp only [show ¬ ((2 : Nat) < 2) by omega, if_false, if_true]
+      simp only [show 2 - 1 - 1 = 0 by rfl, show 2 - 1 - 0 = 1 by rfl]
+      ring
+    · simp only [h1, h2, if_false]
+      by_cases h3 : i = 0
+      · subst h3
+        have e1 : ¬ (L - 1 - 0 = 0) := by omega
+        have e2 : L - 1 - 0 = L - 1 := by omega
+        have e3 : ¬ (L - 1 = 0) := by omega
+        simp only [if_true, e1, if_false, e2, e3]
+        have a1 : L - 1 - 1 = L - 2 := by omega
+        have a2 : L - 1 - 2 = L - 3 := by omega
+        rw [a1, a2]
+        ring
+      · by_cases h4 : i = L - 1
+        · subst h4
+          have e0 : L - 1 - (L - 1) = 0 := by omega
+          simp only [h3, if_false, if_true, e0]
+          have a1 : L - 1 - (L - 2) = 1 := by omega
+          have a2 : L - 1 - (L - 3) = 2 := by omega
+          rw [a1, a2]
+          ring
+        · have e1 : ¬ (L - 1 - i = 0) := by omega
+          have e2 : ¬ (L - 1 - i = L - 1) := by omega
+          simp only [h3, h4, e1, e2, if_false]
+          have a1 : L - 1 - (i + 1) = L - 1 - i - 1 := by omega
+          have a2 : L - 1 - (i - 1) = L - 1 - i + 1 := by omega
+          rw [a1, a2]
+          ring
+
+/-- reversing a run mirrors the second-derivative stencil -/
+theorem d2_reverse (h : Rat) (L : Nat) (g : Nat → Rat) (i : Nat) (hi : i < L) :
+    d2At h L (fun k => g (L - 1 - k)) i = d2At h L g (L - 1 - i) := by
+  unfold d2At
+  by_cases h1 : L < 3
+  · simp [h1]
+  · by_cases h2 : L = 3
+    · subst h2
+      simp only [show ¬ ((3 : Nat) < 3) by omega, if_false, if_true]
+      simp only [show 3 - 1 - 0 = 2 by rfl, show 3 - 1 - 1 = 1 by rfl, show 3 - 1 - 2 = 0 by rfl]
+      ring
+    · simp only [h1, h2, if_false]
+      by_cases h3 : i = 0
+      · subst h3
+        have e1 : ¬ (L - 1 - 0 = 0) := by omega
+        have e2 : L - 1 - 0 = L - 1 := by omega
+        have e3 : ¬ (L - 1 = 0) := by omega
+        simp only [if_true, e1, if_false, e2, e3]
+        have a1 : L - 1 - 1 = L - 2 := by omega
+        have a2 : L - 1 - 2 = L - 3 := by omega
+        have a3 : L - 1 - 3 = L - 4 := by omega
+        rw [a1, a2, a3]
+      · by_cases h4 : i = L - 1
+        · subst h4
+          have e0 : L - 1 - (L - 1) = 0 := by omega
+          simp only [h3, if_false, if_true, e0]
+          have a1 : L - 1 - (L - 2) = 1 := by omega
+          have a2 : L - 1 - (L - 3) = 2 := by omega
+          have a3 : L - 1 - (L - 4) = 3 := by omega
+          rw [a1, a2, a3]
+        · have e1 : ¬ (L - 1 - i = 0) := by omega
+          have e2 : ¬ (L - 1 - i = L - 1) := by omega
+          simp only [h3, h4, e1, e2, if_false]
+          have a1 : L - 1 - (i + 1) = L - 1 - i - 1 := by omega
+          have a2 : L - 1 - (i - 1) = L - 1 - i + 1 := by omega
+          rw [a1, a2]
+          ring
+
+/-! ## Non-vacuity: concrete fields that meet the hypotheses
+
+(`exS`, `exV`, `exMesh`, … are defined in `DFV/Lemmas/C05Examples.lean`) -/
+
+example : DimsOk exS := ⟨rfl, by decide⟩
+
+example : Plain exS := ⟨rfl, rfl, rfl⟩
+
+example : FullyValid exS := fun _ => rfl
+
+example : InMesh exS [1, 2, 4] := ⟨rfl, fun a ha => by
+  have : a = 0 ∨ a = 1 ∨ a = 2 := by unfold Mesh.ndim Region.ndim exS exMesh at ha; simp at ha; omega
+  rcases this with rfl | rfl | rfl <;> decide⟩
+
+example : SampledFrom exS 0 exP := fun _ => rfl
+
+/-- all hypotheses of `grad_exact_quadratic` hold together: the gradient of `exS` exists and
+its first component at cell (1,2,4) is `2·x₀ = 3` -/
+example : ∃ g, grad exS = .ok g ∧ (g.data.get [1, 2, 4]).getD 0 0 = 3 := by
+  obtain ⟨g, hg⟩ := grad_accepts exS ⟨rfl, rfl, rfl⟩ ⟨rfl, by decide⟩ (by decide)
+  refine ⟨g, hg, ?_⟩
+  have := grad_exact_quadratic exS g exP exP1 exP2 ⟨rfl, by decide⟩ (fun _ => rfl) exP_quad exMesh_exact hg
+    [1, 2, 4] ⟨rfl, fun a ha => by
+      have : a = 0 ∨ a = 1 ∨ a = 2 := by unfold Mesh.ndim Region.ndim exS exMesh at ha; simp at ha; omega
+      rcases this with rfl | rfl | rfl <;> decide⟩ 0 (by decide)
+  rw [this]
+  simp [exP1, coords, Mesh.centreAx, Mesh.cellAt, Mesh.nAt, exS, exMesh, Region.edge, Region.hi, Region.lo]
+  norm_num
+
+/-- `curl(grad exS)` is defined (so `curl_grad_zero` speaks about something) -/
+example : ∃ g r, grad exS = .ok g ∧ curl g = .ok r :=
+  curl_grad_defined exS ⟨rfl, by decide⟩ ⟨rfl, rfl, rfl⟩ rfl
+
+example : ∃ g, div exV = .ok g :=
+  div_accepts exV ["p", "q", "r"] exσ ⟨rfl, by decide⟩ rfl (by decide) rfl rfl (by decide) exV_σ
+
+example : ∃ c d, curl exV = .ok c ∧ div c = .ok d := by
+  obtain ⟨c, hc⟩ := curl_accepts exV ["p", "q", "r"] exσ exρ ⟨rfl, by decide⟩ rfl rfl rfl rfl (by decide)
+    (fun c hc => exV_σ c hc) exV_ρ
+  obtain ⟨d, hd⟩ := div_curl_defined exV c ⟨rfl, by decide⟩ hc
+  exact ⟨c, d, hc, hd⟩
+
+/-- the mapping of `exV` is one-to-one (hypothesis of `rdim_inverts_mapping`) -/
+example : ∀ p ∈ exV.vmap, ∀ q ∈ exV.vmap, p.2 = q.2 → p = q := by decide
+
+/-- relabelling `exV` is accepted, so `setVdims_keeps_map` / `div_relabel` are not vacuous -/
+example : ∃ g, setVdims exV (some ["u", "v", "w"]) = .ok g := ⟨_, rfl⟩
+
+/-- † witness of candidate finding D21: the Laplacian of `exV` exists, pairs axis `a` with its
+component 0 (positional mapping) although that component is the Laplacian of `p`, which `exV`
+pairs with axis `c` -/
+example : ∃ g, laplace exV = .ok g ∧ g.vmap = [("x", "a"), ("y", "b"), ("z", "c")] ∧
+    Fld.lookup exV.vmap "p" = some "c" := by
+  obtain ⟨g, hg⟩ := laplace_accepts exV ⟨rfl, by decide⟩ (by decide)
+    (Or.inr ⟨by decide, ["p", "q", "r"], rfl, rfl, by decide⟩)
+  obtain ⟨_, m2⟩ := laplace_vector_meta exV g ["p", "q", "r"] (by decide) rfl rfl hg
+  obtain ⟨n1, n2, _, _⟩ := laplace_eq_vector exV g ["p", "q", "r"] ⟨rfl, by decide⟩ (by decide) rfl rfl (by decide) hg
+  refine ⟨g, hg, ?_, by decide⟩
+  rw [m2, n1, n2]
+  rfl
 
 end DFV.C05
